@@ -12,7 +12,7 @@ from qvm.memlayout import (
 )
 from .codegen import BaseCodeGen, BaseCode
 from .program import Label, LineNo, Program
-from .exceptions import InternalError
+from .exceptions import InternalError, CompileError, ErrorCode as EC
 from .evalctx import Routine
 from .utils import Empty
 from . import stmt, expr
@@ -887,10 +887,16 @@ def gen_lvalue_ref(node, code, codegen):
 
 def gen_code_for_conv(to_type, node, code, codegen):
     assert isinstance(to_type, expr.Type)
-    assert not node.type.is_array
-    assert not node.type.is_user_defined
-    assert not to_type.is_array
-    assert not to_type.is_user_defined
+    if node.type != to_type and \
+       not (node.type.is_numeric and to_type.is_numeric):
+        # only numeric types convert into each other; anything else
+        # (a string where a number is expected, a record or an array
+        # used as a value) is a type error in the source program
+        raise CompileError(
+            EC.TYPE_MISMATCH,
+            f'Type mismatch: expected {to_type.name.upper()}, got '
+            f'{node.type.name.upper()}',
+            node=node)
     if node.type != to_type:
         from_char = node.type.type_char
         to_char = to_type.type_char
@@ -1032,6 +1038,14 @@ def gen_lvalue(node, code, codegen):
 
     if node.implicit_decl and node.implicit_decl.type.is_array:
         gen_static_array_init(node.implicit_decl, code, codegen)
+
+    if node.type.is_array or not node.type.is_builtin:
+        # only values of the builtin types can be loaded onto the
+        # stack (whole-record assignment is not supported)
+        raise CompileError(
+            EC.TYPE_MISMATCH,
+            'A record or a whole array cannot be used as a value',
+            node=node)
 
     base_var = node.get_base_variable()
     if base_var.is_global:
@@ -1396,22 +1410,22 @@ def gen_cls(node, code, codegen):
 def gen_color(node, code, codegen):
     if node.foreground is not None:
         codegen.gen_code_for_node(node.foreground, code)
-        if node.foreground.type != expr.Type.INTEGER:
-            code.add((f'conv{node.foreground.type.type_char}%',))
+        gen_code_for_conv(
+            expr.Type.INTEGER, node.foreground, code, codegen)
     else:
         code.add(('push%', -1))
 
     if node.background is not None:
         codegen.gen_code_for_node(node.background, code)
-        if node.background.type != expr.Type.INTEGER:
-            code.add((f'conv{node.background.type.type_char}%',))
+        gen_code_for_conv(
+            expr.Type.INTEGER, node.background, code, codegen)
     else:
         code.add(('push%', -1))
 
     if node.border is not None:
         codegen.gen_code_for_node(node.border, code)
-        if node.border.type != expr.Type.INTEGER:
-            code.add((f'conv{node.border.type.type_char}%',))
+        gen_code_for_conv(
+            expr.Type.INTEGER, node.border, code, codegen)
     else:
         code.add(('push%', -1))
 
